@@ -254,6 +254,67 @@ theorem best_survives_with_probability_one (Lmax : ℝ) (hpos : 0 < Lmax) :
   rw [accept_probability Lmax Lmax hpos.le le_rfl hpos, div_self hpos.ne']
   simp
 
+/-- **joint law of the accepted set.**  `N` evaluated samples with acceptance thresholds `r i ∈ [0,1]`
+(`r i = L_i / L_max`), one uniform per sample: the set of draws `uu ∈ [0,1)^N` for which the accepted set is
+exactly `S` has (product Lebesgue) measure `∏_{i ∈ S} r_i · ∏_{i ∉ S} (1 − r_i)` — the samples are kept
+independently of each other, each with its own probability. -/
+theorem accepted_set_law {N : ℕ} (r : Fin N → ℝ) (h0 : ∀ i, 0 ≤ r i) (h1 : ∀ i, r i ≤ 1) (S : Finset (Fin N)) :
+    volume {uu : Fin N → ℝ | (∀ i, uu i ∈ Set.Ico (0 : ℝ) 1) ∧ ∀ i, (i ∈ S ↔ uu i < r i)} =
+      ∏ i, ENNReal.ofReal (if i ∈ S then r i else 1 - r i) := by
+  have hset : {uu : Fin N → ℝ | (∀ i, uu i ∈ Set.Ico (0 : ℝ) 1) ∧ ∀ i, (i ∈ S ↔ uu i < r i)} =
+      Set.pi Set.univ fun i => Set.Ico (if i ∈ S then 0 else r i) (if i ∈ S then r i else 1) := by
+    ext uu
+    simp only [Set.mem_ofPred_eq, Set.mem_pi, Set.mem_univ, true_implies, Set.mem_Ico]
+    constructor
+    · rintro ⟨hu, hS⟩ i
+      by_cases hi : i ∈ S
+      · simp only [hi, if_true]; exact ⟨(hu i).1, (hS i).mp hi⟩
+      · simp only [hi, if_false]; exact ⟨not_lt.mp (fun h => hi ((hS i).mpr h)), (hu i).2⟩
+    · intro h
+      refine ⟨fun i => ?_, fun i => ?_⟩
+      · have := h i
+        by_cases hi : i ∈ S
+        · simp only [hi, if_true] at this; exact ⟨this.1, lt_of_lt_of_le this.2 (h1 i)⟩
+        · simp only [hi, if_false] at this; exact ⟨le_trans (h0 i) this.1, this.2⟩
+      · have := h i
+        by_cases hi : i ∈ S
+        · simp only [hi, if_true] at this; simp [hi, this.2]
+        · simp only [hi, if_false] at this; simp [hi, not_lt.mpr this.1]
+  rw [hset, Real.volume_pi_Ico]
+  apply Finset.prod_congr rfl
+  intro i _
+  by_cases hi : i ∈ S <;> simp [hi]
+
+/-- the same for the sampler's own mask `goodPos` over the log-likelihoods `ll` with maximum `m`: the accepted set
+is `S` with probability `∏_{i ∈ S} L_i/L_max · ∏_{i ∉ S} (1 − L_i/L_max)` -/
+theorem sampler_accepted_set_law {N : ℕ} (ll : Fin N → ℝ) (m : ℝ) (hm : maxOf (List.ofFn ll) = some m)
+    (S : Finset (Fin N)) :
+    volume {uu : Fin N → ℝ | (∀ i, uu i ∈ Set.Ico (0 : ℝ) 1) ∧
+        ∀ i : Fin N, (i ∈ S ↔ i.val ∈ goodPos Real.exp (List.ofFn ll) (List.ofFn uu))} =
+      ∏ i, ENNReal.ofReal (if i ∈ S then Real.exp (ll i - m) else 1 - Real.exp (ll i - m)) := by
+  have hle : ∀ i, ll i ≤ m := fun i => (max_is_max hm).1 (ll i) (by simp [List.mem_ofFn])
+  rw [← accepted_set_law (fun i => Real.exp (ll i - m)) (fun i => (Real.exp_pos _).le)
+    (fun i => by rw [← Real.exp_zero]; exact Real.exp_le_exp.mpr (by linarith [hle i])) S]
+  congr 1
+  ext uu
+  simp only [Set.mem_ofPred_eq]
+  have key : ∀ i : Fin N, (i.val ∈ goodPos Real.exp (List.ofFn ll) (List.ofFn uu)) ↔ uu i < Real.exp (ll i - m) := by
+    intro i
+    rw [accept_iff]
+    constructor
+    · rintro ⟨m', l, u, h1, h2, h3, h4⟩
+      rw [hm] at h1
+      simp only [List.getElem?_ofFn, i.isLt, dite_true, Option.some.injEq] at h2 h3
+      cases h1; subst h2; subst h3
+      exact h4
+    · intro h
+      exact ⟨m, ll i, uu i, hm, by simp, by simp, h⟩
+  simp only [key]
+
+/-- non-vacuity: two samples, `ll = (0, −1)`, maximum `0` -/
+example : maxOf (List.ofFn ![(0 : ℝ), -1]) = some 0 := by
+  simp [maxOf, List.ofFn_succ]
+
 end Probability
 
 /-! ### `−inf` likelihoods, concretely over the extended reals -/
